@@ -10,14 +10,13 @@ CONSTANTS
   MaxDepth = 2
   QueueCap = 0
   HardLimit = 0
-  WithErrors = TRUE
+  WithErrors = FALSE
   WithIdle = FALSE
-  WithSleep = FALSE
-  TimeoutTypes = {}
-  KeepLog = TRUE
+  WithSleep = TRUE
+  TimeoutTypes = {"T"}
+  KeepLog = FALSE
 INVARIANT TypeOK
 INVARIANT LockOK
 INVARIANT NoUnexplainedWitness
 INVARIANT TerminalOK
-INVARIANT EmitBehaviour
 CHECK_DEADLOCK FALSE
